@@ -4,12 +4,15 @@ CONSTANTS
   NOps = 2
   K = 1
   MaxFail = 1
-  NPhases = 2
+  NPhases = 1
   FixDrain = TRUE
   FixWorkerErr = TRUE
   AllowStop = TRUE
   AllowFault = FALSE
   AliveCheck = TRUE
+  PhaseOn = {1, 2, 3, 4, 5}
+  AllowCtrlC = FALSE
+  MaxNFE = 1
 INVARIANT ProtocolOK
 INVARIANT ClosedAtEnd
 INVARIANT NoProblemLost
